@@ -251,7 +251,13 @@ class RepositoryMachine(Machine):
                     written.append((fam, key))
                 op = {"op": "update", "fam": fam, "root": root, "entries": entries,
                       "as": rng.choice(["list", "list", "tuple", "ndarray", "npcharge"]), "pathlib": rng.random() < 0.15}
-                if rng.random() < 0.35:
+                if fam == "beam_cx" and rng.random() < 0.3:
+                    op["empty_transition"] = rng.choice(TRANSITIONS)
+                if rng.random() < 0.15:
+                    op["resend"] = 1
+                    op["resend_pos"] = rng.choice(["first", "last"])
+                    op["resend_ulp"] = True          # ... one stored payload again, one number moved to the neighbouring float64
+                elif rng.random() < 0.35:
                     # also re-send, unchanged, up to two payloads already stored in this family (an idempotent re-write
                     # mixed with new data: "last write wins" must not depend on whether the written value is new)
                     op["resend"] = rng.randint(1, 2)
@@ -303,7 +309,7 @@ class RepositoryMachine(Machine):
     def _gen_install(self, rng, g, species, root):
         kind = rng.choice(["adf11scd", "adf11acd", "adf11ccd", "adf11plt", "adf11prb", "adf11prc", "adf12", "adf15",
                            "adf21", "adf22bmp", "adf22bme"])
-        op = {"op": "install", "kind": kind, "root": root, "download": rng.random() < 0.4,
+        op = {"op": "install", "kind": kind, "root": root, "download": rng.random() < 0.4, "stale_cache": rng.random() < 0.25,
               "file": "adf/%s/f%d.dat" % (kind, rng.randrange(3)), "tag": rng.randrange(1000)}
         sp = rng.choice([s for s in species if s not in ("D", "H1")] or ["C"])
         op["sp"] = sp
@@ -347,6 +353,7 @@ class RepositoryMachine(Machine):
         c.home = c.fs.norm(os.path.expanduser("~"))
         c.model = {}           # canonical key -> {"fam","root","key","value": field->bytes}
         c.poisoned = set()     # absolute file paths torn by a fault
+        c.empty_named = []     # (root, key) of beam-CX transitions that were named without metastables: must stay unreadable
         c.nwrites = 0
         c.fault_mode = bool(cfg.get("faults"))
         env.stats.add("config", "faults" if c.fault_mode else "nofaults")
@@ -439,7 +446,24 @@ class RepositoryMachine(Machine):
                 "beam_stopping": ["b", "sp", "ch"], "beam_population": ["b", "m", "sp", "ch"],
                 "beam_emission": ["b", "sp", "ch", "tr"]}.get(fam, ["sp", "ch"])
 
-    def _call_update(self, fam, entries, root, species_override=None, cls_override=None, how="list", pathlib_root=False):
+    def _empty_tr(self, c, op, fam, root, entries):
+        """A transition named with an empty metastable dict (legal: nothing to write) -- only if nothing is stored under it."""
+        tr = op.get("empty_transition")
+        if fam != "beam_cx" or not tr or not entries:
+            return None
+        k0 = entries[0]["key"]
+        enc = enc_tr(tr)
+        for e in entries:
+            if enc_tr(e["key"]["tr"]) == enc:
+                return None
+        for ck in c.model:
+            if ck[0] == "beam_cx" and ck[1] == root and ck[2:5] == (SYMBOL[k0["d"]], SYMBOL[k0["sp"]], k0["ch"]) and ck[5] == enc:
+                return None
+        c.empty_named.append((root, dict(k0, tr=tr, m=1)))
+        return (k0, tr)
+
+    def _call_update(self, fam, entries, root, species_override=None, cls_override=None, how="list", pathlib_root=False,
+                     empty_transition=None):
         rp = self._root(root)
         if pathlib_root:
             import pathlib
@@ -463,6 +487,8 @@ class RepositoryMachine(Machine):
                 self._nest(d, [S(k["sp"]), k["ch"], tr], p["wavelength"])
             elif fam == "beam_cx":
                 self._nest(d, [S(k["d"]), S(k["sp"]), k["ch"], tr, k["m"]], p)
+                if empty_transition is not None and k is empty_transition[0]:
+                    d[S(k["d"])][S(k["sp"])][k["ch"]].setdefault(tuple(empty_transition[1]), {})
             elif fam == "beam_stopping":
                 self._nest(d, [S(k["b"]), S(k["sp"]), k["ch"]], p)
             elif fam == "beam_population":
@@ -511,6 +537,8 @@ class RepositoryMachine(Machine):
         except Exception as e:
             return "error", e
         if fam == "beam_cx":
+            if not got:
+                return "error", ValueError("get_beam_cx_rates returned an empty list instead of raising RuntimeError")
             by = {}
             for m, rate in got:
                 if m in by:
@@ -564,6 +592,14 @@ class RepositoryMachine(Machine):
             if val != want:
                 bad = sorted(k for k in set(val) | set(want) if val.get(k) != want.get(k))
                 raise Violation("stale-or-foreign-value", fam, "after %s: key %r differs from the most recent write in fields %r" % (after, ck, bad))
+        for root, key in c.empty_named[-6:]:
+            ck = ckey("beam_cx", root, key)
+            if any(k2[:6] == ck[:6] for k2 in c.model) or self._abs(c, root, file_of("beam_cx", key)) in c.poisoned:
+                continue
+            how, val = self._read(c, "beam_cx", key, root)
+            if how != "missing":
+                raise Violation("never-written-readable", "beam_cx", "after %s: transition %r was only named with an empty metastable "
+                                "dictionary, yet reading it gives %s %r" % (after, ck[:6], how, val))
         env.stats.inc("audit.keys", len(c.model))
 
     def _footprint(self, c, env, root, w0, d0, extra_ok=()):
@@ -645,8 +681,19 @@ class RepositoryMachine(Machine):
             named = {ckey(fam, root, e["key"]) for e in entries}
             stored = [m for ck, m in sorted(c.model.items(), key=lambda kv: repr(kv[0]))
                       if m["fam"] == fam and m["root"] == root and m.get("payload") is not None and ck not in named]
-            extra = [{"key": m["key"], "payload": m["payload"]} for m in stored[: op["resend"]]]
-            if extra:
+            extra = [{"key": m["key"], "payload": copy.deepcopy(m["payload"])} for m in stored[: op["resend"]]]
+            if extra and op.get("resend_ulp"):
+                pl = extra[0]["payload"]
+                fld = sorted(k for k, v in pl.items() if isinstance(v, (float, list)))[-1]
+                v = pl[fld]
+                if isinstance(v, float):
+                    pl[fld] = float(np.nextafter(v, np.inf))
+                else:
+                    while isinstance(v[-1], list):
+                        v = v[-1]
+                    v[-1] = float(np.nextafter(v[-1], np.inf))
+                env.probe("stored_payload_resent_one_ulp_away")
+            elif extra:
                 env.probe("stored_payload_resent_unchanged")
                 entries = (extra + entries) if op.get("resend_pos") == "first" else (entries + extra)
         # last entry wins when an update names the same canonical key twice
@@ -678,7 +725,7 @@ class RepositoryMachine(Machine):
                 self._call_add(fam, op["key"], op["payload"], root, how=op.get("as", "list"), pathlib_root=bool(op.get("pathlib")))
             else:
                 self._call_update(fam, entries, root, how=op.get("as", "list") if op.get("as") != "npcharge" else "list",
-                                  pathlib_root=bool(op.get("pathlib")))
+                                  pathlib_root=bool(op.get("pathlib")), empty_transition=self._empty_tr(c, op, fam, root, entries))
             raised = None
         except Exception as e:
             raised = e
@@ -902,7 +949,17 @@ class RepositoryMachine(Machine):
     def _do_install(self, c, op, env, w0, d0, f0):
         root = op["root"]
         text = self._adf_text(op)
-        if op["download"]:
+        stale = bool(op.get("stale_cache")) and not c.fault_mode
+        if stale:
+            # the file is present under adas_path *and* an older, different copy sits in the repository's download cache
+            c.fs.add_file(os.path.join(c.cfg["adas_path"], op["file"]), text)
+            older = self._adf_text(dict(op, tag=(op["tag"] + 1) % 1000))
+            cache_dir = os.path.join(self._root(root), "_download_cache", os.path.dirname(op["file"]))
+            c.fs.os.makedirs(cache_dir, exist_ok=True)
+            c.fs.add_file(os.path.join(self._root(root), "_download_cache", op["file"]), older)
+            op = dict(op, download=True)
+            env.probe("install_with_stale_download_cache")
+        elif op["download"]:
             c.fs.archive[op["file"].replace("#", "][").lstrip("/")] = text
         else:
             c.fs.add_file(os.path.join(c.cfg["adas_path"], op["file"]), text)
@@ -941,6 +998,24 @@ class RepositoryMachine(Machine):
                 how, val = self._read(c, fam, key, root)
                 if how != "ok":
                     raise Violation("install-key-missing", op["kind"], "after a successful install key %r is %s" % (ck, how))
+        if stale and raised is None:
+            # differential oracle: the same call on a pristine repository (no cache) must store exactly the same tables
+            c.ntwin = getattr(c, "ntwin", 0) + 1
+            troot = "/sim/twin%d" % c.ntwin
+            saved = ROOTS[:]
+            ROOTS.append(troot)
+            try:
+                top = dict(op, root=len(ROOTS) - 1, download=False)
+                tfn, tkeys = self._install_plan(c, top)
+                tfn()
+                for (fam, key) in tkeys:
+                    ha, va = self._read(c, fam, key, root)
+                    hb, vb = self._read(c, fam, key, len(ROOTS) - 1)
+                    if ha != hb or va != vb:
+                        raise Violation("install-stale-source", op["kind"], "key %r: the repository with an older cached copy of the file holds "
+                                        "%s, a pristine repository holds %s after the same install call" % (ckey(fam, root, key), ha, hb))
+            finally:
+                ROOTS[:] = saved
         self._audit(c, env, "install %s" % op["kind"], unconstrained=set(covered))
         env.stats.add("installers_run", op["kind"])
         return "ok" if raised is None else "raised:" + type(raised).__name__
